@@ -77,12 +77,14 @@ func boxKinds() []*boxKind {
 		{name: "table-cell", doc: div(`<div style="display:table;margin:10px"><div style="display:table-row"><div style="display:table-cell;`, `"></div></div></div>`), want: [4]float64{10, 10, 40, 20}},
 		{name: "table-caption", doc: div(`<div style="display:table;margin:10px"><div style="display:table-caption;`, `"></div>`+cell+`</div>`), want: [4]float64{10, 10, 40, 20}},
 		// rows and row groups (transformable elements of CSS Transforms 1): the declarations are on
-		// the row / group, the red background on its only cell, whose border box is the row's
+		// the row / group, the red background on a block that fills its only cell: the three border
+		// boxes coincide. (Not on the cell: the backgrounds of the cells of a row that forms a
+		// stacking context are not painted at all, which is not a matter of this property.)
 		{name: "table-row", doc: func(decls string) string {
-			return `<div style="display:table;margin:10px"><div style="display:table-row;` + decls + `"><div style="display:table-cell;` + kindStyle + `"></div></div></div>`
+			return `<div style="display:table;margin:10px"><div style="display:table-row;` + decls + `"><div style="display:table-cell"><div style="` + kindStyle + `"></div></div></div></div>`
 		}, want: [4]float64{10, 10, 40, 20}},
 		{name: "table-row-group", doc: func(decls string) string {
-			return `<div style="display:table;margin:10px"><div style="display:table-row-group;` + decls + `"><div style="display:table-row"><div style="display:table-cell;` + kindStyle + `"></div></div></div></div>`
+			return `<div style="display:table;margin:10px"><div style="display:table-row-group;` + decls + `"><div style="display:table-row"><div style="display:table-cell"><div style="` + kindStyle + `"></div></div></div></div></div>`
 		}, want: [4]float64{10, 10, 40, 20}},
 		// --- list items (outside marker: a child box that carries a translate of its own)
 		{name: "list-item", doc: div(`<div style="display:list-item;list-style:disc outside;margin:10px 10px 10px 30px;`, `"></div>`), want: [4]float64{30, 10, 40, 20}},
